@@ -104,6 +104,20 @@ def gen_cases(rng, tier):
                 # wrong type for the symbol
                 other = rng.choice(list(ctx.classes))
                 ops.append(["q_parse", other, f"2.5 {u}", "-", MODE])
+        # the text form keeps its meaning after REJECTED declarations: try to
+        # declare existing symbols again in other types (rejected: symbols are
+        # unique), then parse those symbols through both factories
+        if lin:
+            for _ in range(3):
+                u = rng.choice(list(ctx.units))
+                t = rng.choice(lin)
+                if ctx.units[t]["cls"] == ctx.units[u]["cls"]:
+                    continue
+                ops.append(["new_unit", ctx.units[t]["cls"], u, "qty", "3", t, MODE])
+                if u in plain:
+                    ops.append(["q_parse", "-", f"2.5 {u}", "-", MODE])
+                    ops.append(["q_parse", ctx.units[u]["cls"], f"2.5 {u}", "-", MODE])
+                    ops.append(["q_str", f"F:5/2@{u}"])
         # floats and ints through q_mk (exact binary value)
         for f in [0.1, 1e-300, 5e-324, 1.7976931348623157e308, 123456.789, -0.0, 2.5]:
             u = rng.choice(plain)
